@@ -146,10 +146,11 @@ ORDER = ['C%02d' % i for i in range(1, 19)]
 
 # whole-function theorems against Spec/* (a transcription of FIPS 204 that mentions nothing of the crate); appended to the claim text
 LITERAL = {
+ 'C05': "Literal specification (Props/C05c): the same two collision theorems stated on Spec.verify / Spec.hashVerify (Algorithms 3 / 5 as written), with no reference to the crate: two accepted interpretations of one signature, or one tuple accepted under two public-key byte strings, exhibit a pre-hash or SHAKE256 collision.",
  'C11': "Literal specification (Props/C11c): derived_public_key_bytes_are_the_standards - whenever Spec.keyGenInternal(xi) = (pk, sk), deserialising sk succeeds, private_to_public_key succeeds and the derived key serialises to exactly pk.",
  'C07': "Literal specification (Props/C02d, C03e): the four entry points equal Spec.verify / hashVerify / sign / hashSign (Algorithms 2-5 as written) for every context length; these are executed on every run at the lengths around the limit against the crate.",
  'C01': "Literal specification (Props/C01d): fips_204_signatures_verify_as_written - carried through the crate by the three whole-function theorems, the round trip holds of the transcription of the standard itself: "
-        "whenever Spec.keyGenInternal(xi) = (pk, sk) and Spec.signInternal(skDecode sk, M', rnd) = sigma, Spec.verifyInternal(pk, M', sigma) = true, for every seed, formatted message, rnd and oracle pair with SHAKE's prefix property.",
+        "whenever Spec.keyGenInternal(xi) = (pk, sk) and Spec.signInternal(skDecode sk, M', rnd) = sigma, Spec.verifyInternal(pk, M', sigma) = true, for every seed, formatted message, rnd and oracle pair with SHAKE's prefix property; and the same for Algorithms 2+3 and 4+5 (ml_dsa_sign_then_verify_as_written, hash_ml_dsa_sign_then_verify_as_written).",
  'C02': "Literal specification (Props/C02c): verification_is_fips_204_algorithm_8_as_written - from the public-key bytes and the signature bytes, expand_public + verify_internal return exactly the Boolean of Spec.verifyInternal "
         "(Algorithms 8, 21, 23, 27, 28, 29, 30, 32, 35-42 and Table 1 transcribed on explicit bit strings and XOF streams), for every input, both build modes. The transcription itself is executed on every run (driver operations spec_verify / spec_sign / spec_keygen) against the crate. Props/C02d: verify and hash_verify are Algorithms 3 and 5 as written (Spec.verify / Spec.hashVerify: context rejection for every context length, M' formatting, OID / digest table), from the key bytes.",
  'C03': "Literal specification (Props/C03c, C03d): sign_internal_is_Sign_internal_as_written - for every accepted private-key byte string, message, context, pre-hash input and rnd, sign_internal on the struct expand_private built "
@@ -157,7 +158,7 @@ LITERAL = {
         "(uses that a shorter SHAKE256 request is a prefix of a longer one). Props/C03e: try_sign_with_rng and try_hash_sign_with_rng are Algorithms 2 and 4 as written (Spec.sign / Spec.hashSign) for every context length and every generator that delivers rnd.",
  'C04': "Literal specification (Props/C04c): keygen_is_algorithm_6_as_written - for every seed, key generation followed by serialisation returns the byte strings of Spec.keyGenInternal "
         "(Algorithm 6 on Algorithms 30-33, 41, 42, 35, 22, 24, 16, 17 as transcribed), so the Lean specification no longer shares sampler or encoder code with the model. Props/C04d: try_keygen_with_rng is Algorithm 1 as written (Spec.keyGen).",
- 'C08': "Literal specification (Props/C08c): bit_pack / bit_unpack / simple variants are Algorithms 16-19 on explicit bit strings, hint_bit_pack / hint_bit_unpack are Algorithms 20 / 21, sig_encode / sig_decode are Algorithms 26 / 27, for all inputs.",
+ 'C08': "Props/C08d: Spec.sigDecode(Spec.sigEncode(c~, z, h)) = (c~, z, h) on well-formed triples and Spec.sigEncode(Spec.sigDecode(sigma)) = sigma on every accepted string - the standard's signature codec, as transcribed, is a bijection. Literal specification (Props/C08c): bit_pack / bit_unpack / simple variants are Algorithms 16-19 on explicit bit strings, hint_bit_pack / hint_bit_unpack are Algorithms 20 / 21, sig_encode / sig_decode are Algorithms 26 / 27, for all inputs.",
  'C10': "Literal specification (Props/C10c): sk_decode returns Ok iff every coefficient of Algorithm 25's s1, s2 (Spec.skDecode on the bytes) lies in [-eta, eta], and then returns exactly Algorithm 25's tuple.",
 }
 
@@ -178,6 +179,10 @@ def main():
                 c['text'] += (" Source tie (Lemmas/SrcTie: " + mods + "): every per-coefficient comprehension, butterfly, comparison and index expression of the hand-modelled functions this property runs through "
                               "is translated from the current source on every run (Gen/Exprs) and proved to be what the model computes there - a skeleton equation closed by rfl plus one equality per expression, up to fault-site names.")
                 c['tech'] += " + translated source expressions (comprehensions, butterflies, decoder comparisons) proved equal to the model's (SrcTie)"
+            if pid in core.SHAPES:
+                c['text'] += (" Statement-level tie (Gen/Shapes, Lemmas/SrcTie/Shape*): a fingerprint of the comment-free text of every hand-modelled function this property runs through is regenerated "
+                              "on every run and must equal the one of the text the model was validated against (one rfl theorem per function; no mathematical content, a checked pin).")
+                c['tech'] += " + fingerprints of the hand-modelled functions' text pinned by theorems (Shape*)"
             checks.append({
                 'property_id': pid,
                 'quick_cmd': f'python3 checks/run.py {pid} --tier quick',
